@@ -37,11 +37,10 @@ theorem resolveConstants_keys (fl : Flags) (o : Orders) (exprs : AMap Ex) (const
     simp only at h
     split at h
     · simp only [Except.ok.injEq] at h
-      have hc : constants.contains k = true := (AMap.contains_iff_lookup _ _).mpr ⟨v, hk⟩
-      rw [← h] at hc
-      rcases resolveLoop_keys fl exprs sorted [] [] k hc with h1 | h1
-      · simp [AMap.contains] at h1
-      · exact h1
+      rw [← h, canonConsts_get?] at hk
+      split at hk
+      · rename_i hc; exact (AMap.contains_iff_mem_keys _ _).mp hc
+      · cases hk
     · simp at h
   · simp at h
   · simp at h
@@ -116,15 +115,29 @@ theorem goodAction_ok (fl : Flags) (assignments : AMap Ex) (W : AMap Width) (con
     | writeMem _ _ _ _ => trivial
     | setStatus _ => trivial
 
+/-- the tables of step 1 (they do not depend on the iteration order) -/
+def step1Of (stmts : List Stmt) : Step1 :=
+  stmts.foldl (step1Stmt (fixedNamesOf y86FixedFunctions) (y86FixedFunctions.filterMap fun f => f.outWire.map (·.1)))
+    (step1Init y86FixedFunctions)
+
+/-- the register banks of step 3 (they depend on the order only through the constants) -/
+def step3Of (fl : Flags) (cls : CharClass) (s1 : Step1) (constants : AMap WireValue) : Step3 :=
+  s1.banksRaw.foldl (step3Bank fl cls s1 constants) { wireTypes := s1.wireTypes }
+
+def knownOf (s1 : Step1) (constants : AMap WireValue) (s3 : Step3) : List String :=
+  ((constPairs s1.constantsRaw.keys constants).map (·.1)).foldl setInsert ((bankOuts s3.banks).foldl setInsert [])
+
 /-- what acceptance by `Program::new` establishes about the intermediate tables -/
-theorem Program_new_decompose (fl : Flags) (cls : CharClass) (o : Orders) (stmts : List Stmt) (p : Program)
+theorem Program_new_decompose' (fl : Flags) (cls : CharClass) (o : Orders) (stmts : List Stmt) (p : Program)
     (hwf : StmtsWF stmts) (h : Program.new fl cls o y86FixedFunctions stmts = .ok p) :
     ∃ (s1 : Step1) (constants : AMap WireValue) (s3 : Step3) (known : List String),
       TablesHyp (fixedNamesOf y86FixedFunctions) y86W0 s1 constants s3 ∧
       (∀ n, n ∈ known ↔ n ∈ bankOuts s3.banks ∨ n ∈ (constPairs s1.constantsRaw.keys constants).map (·.1)) ∧
       assignmentsToActions fl o s1.assignments (finalWires s1 constants s3) known y86FixedFunctions s1.declared constants = .ok p.actions ∧
       p.constants = constants ∧ p.banks = s3.banks ∧
-      (∀ n ∈ s1.assigned, s1.constantsRaw.contains n = false) := by
+      (∀ n ∈ s1.assigned, s1.constantsRaw.contains n = false) ∧
+      s1 = step1Of stmts ∧ resolveConstants fl o s1.constantsRaw = .ok constants ∧ s3 = step3Of fl cls s1 constants ∧
+      known = knownOf s1 constants s3 ∧ p.defaulted = s3.defaulted ∧ p.wireTypes = s3.wireTypes := by
   unfold Program.new at h
   simp only at h
   -- step 1
@@ -185,10 +198,21 @@ theorem Program_new_decompose (fl : Flags) (cls : CharClass) (o : Orders) (stmts
           · rename_i actions hact
             simp only [Except.ok.injEq] at h
             subst h
-            refine ⟨s1, constants, s3, known, hyp, ?_, hact, rfl, rfl, hassignedConst⟩
+            refine ⟨s1, constants, s3, known, hyp, ?_, hact, rfl, rfl, hassignedConst, hs1.symm, hconst, hs3.symm, hknown.symm, rfl, rfl⟩
             intro n
             rw [← hknown, mem_foldl_setInsert, mem_foldl_setInsert]
             simp
+
+theorem Program_new_decompose (fl : Flags) (cls : CharClass) (o : Orders) (stmts : List Stmt) (p : Program)
+    (hwf : StmtsWF stmts) (h : Program.new fl cls o y86FixedFunctions stmts = .ok p) :
+    ∃ (s1 : Step1) (constants : AMap WireValue) (s3 : Step3) (known : List String),
+      TablesHyp (fixedNamesOf y86FixedFunctions) y86W0 s1 constants s3 ∧
+      (∀ n, n ∈ known ↔ n ∈ bankOuts s3.banks ∨ n ∈ (constPairs s1.constantsRaw.keys constants).map (·.1)) ∧
+      assignmentsToActions fl o s1.assignments (finalWires s1 constants s3) known y86FixedFunctions s1.declared constants = .ok p.actions ∧
+      p.constants = constants ∧ p.banks = s3.banks ∧
+      (∀ n ∈ s1.assigned, s1.constantsRaw.contains n = false) := by
+  obtain ⟨s1, constants, s3, known, h1, h2, h3, h4, h5, h6, _⟩ := Program_new_decompose' fl cls o stmts p hwf h
+  exact ⟨s1, constants, s3, known, h1, h2, h3, h4, h5, h6⟩
 
 /-- **Accepted ⇒ sound.**  `known` is the list of names whose values exist before the first action of a cycle
     (register outputs and constants). -/
